@@ -77,6 +77,7 @@ def judge(sh, p, r, case):
 
 def run_programs(spec):
     sh = Shard(max_per_sig=3)
+    nprog = 0
     for p, tag in pipework.base_programs(spec):
         src = p.text()
         case = {"name": p.name, "src": src, "mode": "api", "tag": tag, "ir": p.to_json()}
@@ -84,6 +85,13 @@ def run_programs(spec):
         kinds = set(s[0] for s in r.sess.stmts)
         sh.case(p.name + "\0" + src, nontrivial=len(r.sess.stmts) >= 10 and len(kinds) >= 4)
         judge(sh, p, r, case)
+        nprog += 1
+        if nprog % 6 == 0:
+            # accepted under the option settings rules can see as well (-R CheckDefine, debug level)
+            case2 = dict(case, added=["CheckDefine"], debug=1)
+            r2 = core.api_run(p.name, src, clock=False, added=["CheckDefine"], debug=1)
+            sh.count("c01.accepted_under_option_settings")
+            judge(sh, p, r2, case2)
         pipework.monitor_failures(sh, r, case, seg=True)
         sh.add_asserts({k: v for k, v in r.sess.asserts.items() if k.startswith(("seg.", "diag."))})
         # coverage actually seen by the rules
@@ -131,9 +139,11 @@ def run_cli(spec):
                     f.write(p.text())
                 names.append(name)
                 progs[name] = p
-            r = cliobs.run_cli(["--no-colors"] + names, cwd=d, timeout=300)
-            sh.case("cli\0" + "\0".join(progs[n].text() for n in names), nontrivial=True)
-            case = {"mode": "cli", "files": {n: progs[n].text() for n in names}}
+            opts = [["--no-colors"], ["--no-colors", "-R", "CheckDefine"], ["--no-colors", "-o"], ["--no-colors", "-R", "CheckForbiddenSourceHeader"]][b % 4]
+            r = cliobs.run_cli(opts + names, cwd=d, timeout=300)
+            sh.case("cli\0" + " ".join(opts) + "\0".join(progs[n].text() for n in names), nontrivial=True)
+            sh.tally("cli_option_sets", " ".join(opts))
+            case = {"mode": "cli", "files": {n: progs[n].text() for n in names}, "opts": opts}
             sh.count("c01.cli_exit_status_0")
             if r.timeout:
                 sh.inconclusive.append("CLI batch exceeded the wall-clock watchdog")
@@ -172,7 +182,7 @@ def replay(case, sh):
             for n, t in case["files"].items():
                 with open(os.path.join(tmp, n), "w") as f:
                     f.write(t)
-            r = cliobs.run_cli(["--no-colors"] + list(case["files"]), cwd=tmp)
+            r = cliobs.run_cli(case.get("opts", ["--no-colors"]) + list(case["files"]), cwd=tmp)
             sh.evaluations += 1
             if r.rc != 0:
                 sh.violation("cli_exit_status", (str(r.rc),), case, {"rc": r.rc, "stdout_tail": r.stdout[-600:]})
@@ -184,7 +194,7 @@ def replay(case, sh):
         p = Prog.from_json(case["ir"])
     else:
         p = Prog(case["name"], [Line("raw", [(l, "raw")]) for l in case["src"].split("\n")[:-1]])
-    r = core.api_run(p.name, p.text(), clock=False)
+    r = core.api_run(p.name, p.text(), clock=False, added=case.get("added"), debug=case.get("debug", 0))
     sh.evaluations += 1
     judge(sh, p, r, case)
 
